@@ -96,11 +96,11 @@ fn gen_programs(rng: &mut Rng) -> Sexp {
     let cfg = g::AspCfg { max_rules: 3, max_body: 2, partial_ops: rng.chance(50), ..g::AspCfg::default() };
     let mut left = g::program(rng, &cfg);
     let mut right = g::program(rng, &cfg);
-    // 3 %: a side from the tau* grammar with variables around the usize boundary of the global counter
+    // 8 %: a side from the tau* grammar with variables around the usize boundary of the global counter
     // (tau* panics: F11); 2 %: a side without rules (no conjecture: no problem is emitted)
-    if rng.chance(3) {
+    if rng.chance(8) {
         let mut tc = crate::ext::taustar::TCfg::adversarial(rng);
-        tc.huge = 10;
+        tc.huge = 30;
         tc.max_rules = 2;
         let p = crate::ext::taustar::program(rng, &tc);
         if rng.chance(50) { left = p } else { right = p }
